@@ -9,6 +9,7 @@ from dalimc.core.explorer import explore
 from dalimc.spec import memory_layout as M
 from dalimc.env import gear102 as G, device103 as D, memimage as MI
 from .c11 import lib_values
+from . import _partner as P
 
 ID = "C10"
 OPTIMISED_STRIDE = {"quick": 10, "thorough": 20}      # every k-th shard once more in an interpreter started with -O
@@ -210,10 +211,32 @@ def shards(tier):
     out.append(("vendor",))
     for a0 in range(0, 64, 16):
         out.append(("addr_sweep", a0, a0 + 16))
+    out += P.partner_shards(PARTNERS)
     return out
 
 
+def _partner_write(key, fam, raw, lock):
+    def make():
+        from dali.address import GearShort, DeviceShort
+        cls = lib_values()[key]
+        bank = MI.make_bank(key[0], "a5", lock_byte=lock)
+        if fam == "gear":
+            bus, addr = G.Bus([G.Gear(short=9, banks={bank.number: bank})]), GearShort(9)
+        else:
+            bus, addr = D.Bus24([D.Device(short=9, banks={bank.number: bank})]), DeviceShort(9)
+        return cls.write_raw(addr, raw), bus, lambda: list(bank.cells)
+    return make
+
+
+PARTNERS = [("LuminaireID.write_raw (gear, locked bank)", _partner_write(("BANK_1", "LuminaireID"), "gear", bytes(range(0x31, 0x39)), 0xFF)),
+            ("ManufacturerGTIN.write_raw (device, unlocked bank)", _partner_write(("BANK_1", "ManufacturerGTIN"), "device", bytes(range(1, 7)), 0x55))]
+PARTNERED = [("vendor",), ("latch", "quick"), ("value", "BANK_1", "ContentFormatID", "quick"), ("value", "BANK_1", "LuminaireID", "quick")]
+
+
 def run_shard(shard):
+    if shard[0] == "partnered":
+        import sys
+        return P.run_partnered(sys.modules[__name__], shard, PARTNERS, PARTNERED)
     res = new_result()
     if shard[0] == "vendor":
         # values an application declares itself (the documented extension point): their locations are a sequence "in the
